@@ -181,11 +181,13 @@ PROPS["C01"] = {
 PROPS["C02"] = {
     "technique": 'Lean 4 theorems on each normalisation of the Lean canonicaliser (tied byte for byte to the real one) + refactoring catalogue on generated Go with real fingerprints',
     "also": ["C01"],   # the shared canon correspondence suite tags its violations C01
-    "suites": [{"name": "refactor", "quick": 8, "thorough": 60, "timeout": 3000}, {"name": "canon", "timeout": 3000}],
-    "lean_modules": ["SfwModel.Props.C02", "SfwModel.Props.C02Limits"],
+    "suites": [{"name": "refactor", "quick": 8, "thorough": 60, "timeout": 3000}, {"name": "canon", "timeout": 3000},
+               {"name": "ssasem", "quick": 4, "thorough": 30, "timeout": 3000}],
+    "lean_modules": ["SfwModel.Props.C02", "SfwModel.Props.C02Limits", "SfwModel.Props.C02Sem"],
     "required_theorems": ["C02_default_policy_matches_source", "C02_self_reference_name_free", "C02_commutative_operands_exchange", "C02_noncommutative_keeps_order",
                           "C02_flip_decision", "C02_flip_meets", "C02_flip_idempotent", "C02_string_literals_abstracted",
-                          "C02_big_int_literals_abstracted", "C02_small_range"],
+                          "C02_big_int_literals_abstracted", "C02_small_range",
+                          "C02_sem_flip_and_commute_are_cosmetic", "C02_sem_commuted_operands_same_value"],
     "level_text": "Kernel-checked on the Lean canonicaliser (which reproduces the real CanonicalIR byte for byte on 900+ functions on every run, from an export that carries no local, parameter, label or position names): each normalisation of the catalogue is a theorem about the function that implements it - self/closure references are printed without the function's name; a commutative BinOp prints the same text for both operand orders; a swap is recorded exactly for >=/> and prints the opposite test with exchanged successors, which is how the opposite spelling prints (and < / <= are fixed points); under the default policy every string literal and every integer literal outside [-16,16] is abstracted in EVERY usage context. Behavioural tie: generated functions (straight-line, branching, nested loops, slices, strings, calls, closures, recursion, methods) and a catalogue of hand-shaped specials on defined types, methods, labels and closures are refactored (rename locals/params/labels/function, reformat, reorder, flip, commute, big-int and string literal replacement; singly and composed) and the real fingerprints must be equal.",
     "level_note": "PARTIAL: whole-function invariance (that the local normal forms compose to equal fingerprints for every program) is validated on generated programs, not proved; go/ssa's lowering of the two spellings is trusted. One known finding: a flip whose test is between two constants is folded by go/ssa before the canonicaliser sees it.",
     "partial": "composition of the local normal forms over whole functions is validated, not proved",
@@ -194,13 +196,18 @@ PROPS["C02"] = {
 PROPS["C03"] = {
     "technique": 'Lean 4 theorems on every normalisation guard + native execution of (P, edited Q) pairs as the behavioural oracle for fingerprint collisions',
     "also": ["C01"],   # the shared canon correspondence suite tags its violations C01
-    "suites": [{"name": "collide", "quick": 8, "thorough": 50, "timeout": 3000}, {"name": "canon", "timeout": 3000}],
-    "lean_modules": ["SfwModel.Props.C03", "SfwModel.Props.C03Names", "SfwModel.Props.C03Select"],
+    "suites": [{"name": "collide", "quick": 8, "thorough": 50, "timeout": 3000}, {"name": "canon", "timeout": 3000},
+               {"name": "ssasem", "quick": 6, "thorough": 40, "timeout": 3000}],
+    "lean_modules": ["SfwModel.Props.C03", "SfwModel.Props.C03Names", "SfwModel.Props.C03Select", "SfwModel.Props.C03Sem"],
     "required_theorems": ["C03_commutative_guard", "C03_noncommutative_ops", "C03_swap_guard", "C03_no_swap_on_floats",
                           "C03_hoist_guard", "C03_recurrences_of_different_loops_differ", "C03_callee_names_distinct",
                           "C03_kept_literals_distinct", "C03_keepall_keeps", "C03_traversal_nodup", "C03_traversal_in_range",
                           "C03_sortedBlocks_perm", "C03_register_names_injective", "C03_block_names_injective",
-                          "C03_select_order_perm", "C03_select_positions_injective", "C03_select_positions_total"],
+                          "C03_select_order_perm", "C03_select_positions_injective", "C03_select_positions_total",
+                          "C03_recurrences_of_different_types_differ",
+                          "C03_sem_commutative_sound", "C03_sem_string_concat_not_commutative", "C03_sem_swap_sound",
+                          "C03_sem_swap_unsound_on_floats", "C03_sem_view_same_behaviour",
+                          "C03_sem_view_needs_table_ids", "C03_sem_view_needs_if_last"],
     "level_text": "Kernel-checked on the Lean canonicaliser: canonical names are injective (the traversal of a well-formed CFG lists no block twice, every block is rendered exactly once and no two blocks share a label; the register map never gives one name to two values); guards: operands are reordered only for + * == != & | ^ and + only on numbers; a branch swap is recorded only for integer|string operands whose comparison feeds nothing but that If (never floats); only len/cap/complex/real/imag/min/max are hoisted and len/cap never on a map or channel; recurrences of different loops, different external callees and different kept literals print differently; KeepAllLiteralsPolicy abstracts no string and no int64. Behavioural tie and the search for collisions: every generated function P is edited into Q by the behaviour-changing catalogue (operator, operand, branch, callee, index, loop variable/step/compare, small literal, deliberately invalid commute/flip/hoist, exchanged nested loop variables, callee of another package, exchanged select cases), BOTH are executed natively on an input table, and whenever the outputs differ the fingerprints must differ under KeepAllLiterals and under the default policy.",
     "level_note": "PARTIAL: global injectivity of the canonical text (no two behaviourally different functions share it) is not proved - it needs a semantics of Go SSA; the theorems pin each normalisation's guard and the native-execution oracle searches for collisions.",
     "partial": "no SSA semantics in Lean: collisions are searched by native execution, guards are proved",
@@ -208,7 +215,8 @@ PROPS["C03"] = {
 }
 PROPS["C04"] = {
     "technique": "Lean 4 proof of CompareFunctions' decision logic + native execution of (old, new) pairs against the real diff status",
-    "suites": [{"name": "collide", "quick": 8, "thorough": 50, "timeout": 3000}, {"name": "zipeq", "quick": 4, "thorough": 40, "timeout": 3000}],
+    "suites": [{"name": "collide", "quick": 8, "thorough": 50, "timeout": 3000}, {"name": "zipeq", "quick": 4, "thorough": 40, "timeout": 3000},
+               {"name": "ssasem", "quick": 4, "thorough": 30, "timeout": 3000}],
     "also": ["C09"],   # the zipeq suite tags its correspondence violations C09
     "lean_modules": ["SfwModel.Props.C04", "SfwModel.Props.C09Zipper", "SfwModel.Props.C09Equiv"],
     "required_theorems": ["C04_preserved_iff", "C04_identical_copy_preserved", "C04_oversized_never_zipper_preserved",
